@@ -398,6 +398,14 @@ func TestVerifC17(t *testing.T) {
 			}
 		}
 	}
+	// every vendor with reader IDs shorter than the three octets a MAC-based name takes
+	for _, v := range vendors {
+		for _, idt := range []uint8{0, 1} {
+			for n := 0; n <= 3; n++ {
+				ncases = append(ncases, ncase{c17ident{true, idt, randBytes(n)}, c17caps{true, v, modelsL[rng.intn(len(modelsL))], fws[rng.intn(len(fws))]}})
+			}
+		}
+	}
 	// the repo's own test vectors and the README's example
 	ncases = append(ncases,
 		ncase{c17ident{true, 0, []byte{0, 0, 0, 0, 0x19, 0xC5, 0xD6}}, c17caps{true, uint32(Impinj), uint32(SpeedwayR420), "5.14.0.240"}},
